@@ -8,10 +8,11 @@ agree.
 """
 import contextlib
 import io
+import os
 import re
 import warnings
 
-from vp import engine
+from vp import engine, sandbox
 from vp.engine import HarnessError, Violation
 from vp.gen import programs
 from vp.gen.draw import composite
@@ -85,8 +86,63 @@ def run_doc(doc, trace, style='freeform'):
     return ex, summary
 
 
+MODULE_GLOBAL_NAMES = ['v', 'a', 'b', 'n', 'w', 'G', 'h']
+
+
+def module_source(doc, n_groups, layout):
+    """a module whose globals carry the very names the doctest binds (v1, a1, ...), with the docstring inside f()"""
+    L = []
+    for k in range(1, n_groups + 1):
+        for nm in MODULE_GLOBAL_NAMES:
+            L.append("{}{} = 'module value'".format(nm, k))
+    L += ['', '', 'def f():', '    """', '    Summary line.', '']
+    ind = '    '
+    if layout == 'google':
+        L.append('    Example:')
+        ind = '        '
+    for ln in doc.split('\n'):
+        ln = ln.replace('\\', '\\\\').replace('"""', '\\"\\"\\"')     # non-raw literal: the value is the intended text
+        L.append((ind + ln) if ln.strip() else '')
+    L += ['    """', '    return 1', '']
+    return '\n'.join(L) + '\n'
+
+
+def run_in_module(case, trace):
+    """the docstring as the doctest of a function in a module file, collected from disk"""
+    from xdoctest import core
+    layout = case.get('module_layout', 'freeform')
+    src = module_source(case['doc'], len(case['groups']), layout)
+    name = sandbox.unique_name('vpc01')
+    with sandbox.scratch('c01') as d:
+        path = os.path.join(d, name + '.py')
+        with open(path, 'w') as f:
+            f.write(src)
+        try:
+            with warnings.catch_warnings(record=True) as wl, contextlib.redirect_stdout(io.StringIO()):
+                warnings.simplefilter('always')
+                examples = list(core.parse_doctestables(path, style='google' if layout == 'google' else 'freeform',
+                                                        analysis='static'))
+            if len(examples) != 1:
+                msgs = [str(w.message)[:300] for w in wl][:2]
+                raise Violation('not_collected:{}'.format(len(examples)),
+                                'module docstring yields {} doctests instead of 1 (warnings: {})\n{}'.format(len(examples), msgs, src))
+            ex = examples[0]
+            ex.mode = 'native'
+            ex.global_namespace = Snap()
+            ex.global_namespace['T'] = trace
+            with contextlib.redirect_stdout(io.StringIO()):
+                summary = ex.run(on_error='return', verbose=0)
+        finally:
+            sandbox.purge_modules([name])
+    ns = {}
+    exec(compile(src, '<module>', 'exec'), ns)
+    return ex, summary, ns
+
+
 def check_case(case, ctx):
     doc, prog, groups = case['doc'], case['prog'], case['groups']
+    if case.get('via_module'):
+        return check_module_case(case, ctx)
     ref = pyexec.run_program('\n'.join(prog) + '\n')
     if ref['exc'] is not None:
         raise HarnessError('reference program raised {!r}'.format(ref['exc']))
@@ -127,9 +183,44 @@ def check_case(case, ctx):
         raise Violation('attribution:first_changed', 'stdout record of the first doctest changed after the second ran')
 
 
+def check_module_case(case, ctx):
+    doc, prog, groups = case['doc'], case['prog'], case['groups']
+    trace = []
+    ex, summary, ns0 = run_in_module(case, trace)
+    ns0.pop('__builtins__', None)
+    ref = pyexec.run_program('\n'.join(prog) + '\n', ns=dict(ns0))
+    if ref['exc'] is not None:
+        raise HarnessError('reference program raised {!r}'.format(ref['exc']))
+    if not summary['passed']:
+        ei = summary.get('exc_info')
+        what = 'skipped' if summary.get('skipped') else 'failed'
+        name = type(ei[1]).__name__ if ei else 'none'
+        raise Violation('module:summary:{}:{}'.format(what, name),
+                        'doctest collected from a module {} ({}: {}) although every want is the true output\n{}'.format(
+                            what, name, str(ei[1])[:300] if ei else '', doc))
+    if trace != ref['trace']:
+        raise Violation('module:trace', 'executed statements {} differ from the plain program {}\n{}'.format(trace, ref['trace'], doc))
+    got_out = ''.join(v for v in ex.logged_stdout.values() if v)
+    if not expected_stdout_regex(groups).fullmatch(got_out):
+        raise Violation('module:stdout', 'recorded stdout {!r} differs from the program output {!r}\n{}'.format(
+            got_out, ref['stdout'], doc))
+    snap = ex.global_namespace.snap
+    if snap is None:
+        raise Violation('namespace_not_cleared', 'global namespace was not cleared after the run')
+    a = pyexec.bindings(snap)
+    b = pyexec.bindings(ref['ns'])
+    if a != b:
+        diff = {k: (a.get(k), b.get(k)) for k in set(a) | set(b) if a.get(k) != b.get(k)}
+        raise Violation('module:bindings', 'final bindings differ from running the program in the module namespace (xdoctest, reference): '
+                        '{}\n{}'.format(str(diff)[:500], doc))
+
+
 @composite
 def case_strategy(D, max_groups):
     case = programs.gen_program(D, max_groups=max_groups)
+    if D.chance(1, 4):
+        case['via_module'] = True
+        case['module_layout'] = D.choice(['freeform', 'google'])
     return case
 
 
@@ -137,6 +228,8 @@ def _check(case, ctx):
     ctx.count()
     groups = case['groups']
     feats = case['features']
+    if case.get('via_module'):
+        ctx.tag('via_module:' + case['module_layout'])
     for f in feats:
         if not f.startswith('kind:'):
             ctx.tag(f)
